@@ -45,6 +45,7 @@ var Pending atomic.Int64
 
 type parked struct {
 	site string
+	gid  int
 	k    int
 	ch   chan struct{}
 }
@@ -175,9 +176,12 @@ func (s *Sched) Yield(site string) {
 		return
 	}
 	_ = spec
-	k := s.yHits[site]
-	s.yHits[site] = k + 1
-	p := &parked{site: site, k: k, ch: make(chan struct{})}
+	s.ymu.Unlock()
+	// The per-site hit index is assigned at collection time, in goroutine-id
+	// order, so that it does not depend on which of several goroutines woken by
+	// the same decision (e.g. a fan-out over a map of readers) got here first.
+	p := &parked{site: site, gid: GoID(), ch: make(chan struct{})}
+	s.ymu.Lock()
 	s.yNew = append(s.yNew, p)
 	s.ymu.Unlock()
 	s.Ping()
@@ -228,10 +232,12 @@ func (s *Sched) collectYields() {
 		if nw[i].site != nw[j].site {
 			return nw[i].site < nw[j].site
 		}
-		return nw[i].k < nw[j].k
+		return nw[i].gid < nw[j].gid
 	})
 	for _, p := range nw {
 		p := p
+		p.k = s.yHits[p.site]
+		s.yHits[p.site] = p.k + 1
 		d := s.holdFor(p.site, p.k)
 		if s.Log != nil {
 			s.Log.Add("yield:"+p.site, "park", "k=%d hold=%d", p.k, int64(d))
